@@ -24,8 +24,9 @@
 //
 // with a decrement of the same field somewhere in the function (deferred or
 // plain).  Every call that comes textually after the `if` inside the same block
-// (including nested blocks) is *guarded*: it only executes after the counter
-// has been incremented and compared with the limit.  A guard at the top of a
+// (including nested blocks), up to an explicit `r.depth--` statement of that
+// block if there is one, is *guarded*: it only executes after the counter has
+// been incremented and compared with the limit.  A guard at the top of a
 // function body therefore guards every call of the function; a guard inside
 // one branch guards only the calls of that branch.
 package cgraph
@@ -413,6 +414,7 @@ type walker struct {
 // established a guard before this point.
 func (w *walker) block(list []ast.Stmt, guarded bool, top bool) {
 	inc := false
+	own := false // the guard in force was established by this block
 	for _, s := range list {
 		if !guarded && w.hasDec {
 			if isDepthInc(s) {
@@ -423,7 +425,7 @@ func (w *walker) block(list []ast.Stmt, guarded bool, top bool) {
 				// the error-building calls inside the if body are not recursion; walk them unguarded
 				before := w.calls
 				w.stmt(s, false)
-				guarded = true
+				guarded, own = true, true
 				w.fd.f.HasGuard = true
 				if top && before == 0 {
 					w.fd.f.TopGuard = true
@@ -431,8 +433,23 @@ func (w *walker) block(list []ast.Stmt, guarded bool, top bool) {
 				continue
 			}
 		}
+		if own && isDepthDec(s) {
+			// an explicit (not deferred) decrement ends the guarded region of this block
+			guarded, own, inc = false, false, false
+			continue
+		}
 		w.stmt(s, guarded)
 	}
+}
+
+func isDepthDec(s ast.Stmt) bool {
+	switch x := s.(type) {
+	case *ast.IncDecStmt:
+		return x.Tok == token.DEC && isDepthSel(x.X)
+	case *ast.AssignStmt:
+		return x.Tok == token.SUB_ASSIGN && len(x.Lhs) == 1 && isDepthSel(x.Lhs[0])
+	}
+	return false
 }
 
 // stmt walks one statement, descending into nested blocks with the current guard state.
